@@ -90,9 +90,9 @@ func (H) Gen(prop string, rng *rand.Rand, tier string) *core.Plan {
 		return genC12(rng, tier)
 	}
 	p := &core.Plan{Harness: "node", Prop: prop, Cfg: map[string]int{}}
-	p.Cfg["preempt_pm"] = []int{0, 0, 2, 10}[rng.Intn(4)]
+	p.Cfg["preempt_pm"] = []int{0, 2, 10, 40}[rng.Intn(4)]
 	p.Cfg["switch_pm"] = []int{50, 300}[rng.Intn(2)]
-	p.Cfg["max_steps"] = 3000000
+	p.Cfg["max_steps"] = 6000000
 	p.Cfg["procs"] = rng.Intn(3)
 	p.Cfg["shards"] = 1 + rng.Intn(2)
 	p.Cfg["nseries"] = 2 + rng.Intn(10)
@@ -632,6 +632,17 @@ func (r *run) query(op core.Op, duringFlush bool) {
 		return []time.Duration{0, 0, time.Millisecond, 3 * time.Millisecond}[c.Sim.Tape.Choose(4)]
 	}
 	rs, err := r.n.Query(r.db, sqlText, lay)
+	// while the flush is still running the same query is asked again (up to two more times): every answer is
+	// judged, the last one is the one compared in detail below if the earlier ones were right
+	for extra := 0; duringFlush && !flushDone && extra < 2 && err == nil; extra++ {
+		exp0 := r.expected(q, before)
+		r.compare(sqlText+" [asked again during the flush]", q, exp0, rs)
+		if c.Violated() {
+			return
+		}
+		c.Sim.Probe("query-repeated-during-flush")
+		rs, err = r.n.Query(r.db, sqlText, lay)
+	}
 	c.Sim.Await(func() bool { return flushDone })
 	c.Oracle()
 	exp := r.expected(q, before)
